@@ -164,3 +164,55 @@ pub fn pat(p: &Pat) -> Value {
         other => json!({"k":"other","text":toks(other)}),
     }
 }
+
+
+/// Functions and methods of plain Rust source files, for inlining helper calls made by grammar actions.
+pub fn rust_fns(path: &str, src: &str) -> Vec<Value> {
+    let mut out = Vec::new();
+    let file = match syn::parse_file(src) {
+        Ok(f) => f,
+        Err(_) => return out,
+    };
+    fn sig_params(sig: &syn::Signature) -> Vec<Value> {
+        sig.inputs
+            .iter()
+            .map(|a| match a {
+                syn::FnArg::Receiver(_) => json!("self"),
+                syn::FnArg::Typed(t) => match &*t.pat {
+                    Pat::Ident(i) => json!(i.ident.to_string()),
+                    other => json!(toks(other)),
+                },
+            })
+            .collect()
+    }
+    fn walk(items: &[syn::Item], path: &str, out: &mut Vec<Value>) {
+        for it in items {
+            match it {
+                syn::Item::Fn(f) => out.push(json!({
+                    "file": path, "name": f.sig.ident.to_string(), "self_ty": Value::Null,
+                    "params": sig_params(&f.sig), "ret": toks(&f.sig.output), "body": block(&f.block), "line": line(f)})),
+                syn::Item::Impl(im) => {
+                    if im.trait_.is_some() {
+                        continue;
+                    }
+                    let ty = toks(&*im.self_ty);
+                    for ii in &im.items {
+                        if let syn::ImplItem::Fn(f) = ii {
+                            out.push(json!({
+                                "file": path, "name": f.sig.ident.to_string(), "self_ty": ty,
+                                "params": sig_params(&f.sig), "ret": toks(&f.sig.output), "body": block(&f.block), "line": line(f)}));
+                        }
+                    }
+                }
+                syn::Item::Mod(m) => {
+                    if let Some((_, items)) = &m.content {
+                        walk(items, path, out);
+                    }
+                }
+                _ => {}
+            }
+        }
+    }
+    walk(&file.items, path, &mut out);
+    out
+}
